@@ -42,6 +42,16 @@ claim("C19", "runtime monitoring: differential round-trip oracle (decode(encode(
       "Executes the real ABI codecs, the real packet contract and the real keeper/client-store iterators on generated values and keys (hostile strings, all height byte patterns incl. the '/' separator and crafted key look-alikes) and compares what is read back with what was written.",
       "Trusted: go-ethereum ABI packer; the generator's coverage of the value space (sampled, not exhaustive).")
 
+claim("C11", "runtime monitoring: exact-movement oracle on full bank/ERC-20 balance dumps around every conversion transaction + backing invariants after every step",
+      "See notes/reports/C11.md. MsgConvertCoin/MsgConvertERC20 delivered as real transactions over module-owned pairs (1-3 denominations), external ERC-20s incl. the repository's malicious tokens, hostile amounts, blocked receivers, disabled module/pair, send-disabled denominations; success => exact debit/credit and nothing else moves, failure => empty store diff; totalSupply = escrowed coins, voucher supply = escrowed tokens after every step.",
+      "A token whose balanceOf lies consistently cannot be told apart from an honest one; allowances not judged.")
+claim("C12", "runtime monitoring: invariant checker over the raw three index prefixes of the aggregate store after every governance action executed the way gov does; convert-back consequence probe",
+      "See notes/reports/C12.md. RegisterCoin/AddCoin/RegisterERC20/Toggle/UpdateTokenPairERC20/self-destruct clean-up sequences mixed with conversions; after each action every pair must be reachable by address and by each denomination, every index entry must point to a pair that lists it, nothing may be in two pairs, and earlier coin->token conversions must still convert back.",
+      "Held on the explored histories only.")
+claim("C20", "runtime monitoring: BeginBlocker bracketed with full decoded bank-store dumps against a min(reward, remaining) reference ledger; whole blocks checked end to end",
+      "See notes/reports/C20.md. Generated params over everything validation accepts, pools that are empty / smaller than the reward / multi-denomination / running dry, enable/disable and param changes between blocks, unrelated bank traffic; pool decreases and fee collector increases by exactly min(reward_d, remaining_d), nothing else moves, supply unchanged, nothing moves when disabled or empty.",
+      "Only the bank store is compared around BeginBlocker.")
+
 # optional per-agent additions are appended by later edits of this file
 exec(open('/verif/scripts/manifest_more.py').read()) if __import__('os').path.exists('/verif/scripts/manifest_more.py') else None
 
